@@ -61,14 +61,17 @@ DoCall(r) ==
         \* an Edit / Rekey the driver issued although the document is encrypted, an Encrypt without a state, a Load without a
         \* file are refused by the harness: nothing happens
         refused == synced /\ r.call \in {"Edit", "Rekey", "Encrypt", "Load"} /\ ~Callable(s, c) /\ r.res = "Err" /\ r.same
-        can == synced /\ Callable(s, c) /\ ~uns
-        t  == IF refused THEN s ELSE Step(cf, s, c)
+        \* SaveRev / SaveInc (files laid out by the driver resp. IncrementalDocument) are judged only: the impl-shaped
+        \* state is dropped until the next Reset, which is not drift
+        foreign == r.call \in {"SaveRev", "SaveInc"}
+        can == synced /\ ~foreign /\ Callable(s, c) /\ ~uns
+        t  == IF refused \/ foreign THEN s ELSE Step(cf, s, c)
         agree == refused \/ (can /\ Agree(Observe(s, t, c), ev))
     IN /\ j' = v.j
        /\ s' = IF agree THEN t ELSE s
        /\ synced' = agree
        /\ cfg' = cf
-       /\ PrintT(<<"VERDICT", ToJson([i |-> l, ok |-> v.ok, tags |-> v.tags, drift |-> (synced /\ ~agree /\ ~uns)])>>)
+       /\ PrintT(<<"VERDICT", ToJson([i |-> l, ok |-> v.ok, tags |-> v.tags, drift |-> (synced /\ ~agree /\ ~uns /\ ~foreign)])>>)
 
 Next ==
     /\ l <= Len(Recs)
